@@ -1,6 +1,7 @@
 package c20seq
 
 import (
+	"bufio"
 	"bytes"
 	"encoding/json"
 	"fmt"
@@ -10,16 +11,30 @@ import (
 	"path/filepath"
 	"runtime"
 	"strings"
+	"sync"
 	"sync/atomic"
 	"time"
 
 	"verif/engine/core"
 )
 
-// Cases run in a child process of the check binary: the binary re-executes
+// Cases never run in the worker process itself.  The check binary re-executes
 // itself with C20SEQ_CHILD set and this package's init() takes over before
-// main() starts.  The result comes back as JSON on file descriptor 3; the
-// child's stdout (where Lua's print and io.write go) is discarded.
+// main() starts.  Two modes:
+//
+//	serve    a long-lived child: one JSON request per line on stdin, one JSON
+//	         response per line on fd 3.  After every case it re-runs EVERY
+//	         observer alone (the canary); if any of them no longer gives the
+//	         observation it gave when the process was pristine, the process
+//	         has been polluted by the case it just ran: it says so and exits,
+//	         and the next case gets a new process.  (A cold process costs ten
+//	         times more than a warm one, so one process per case is too slow.)
+//	<json>   a one-shot child running exactly one request in a pristine
+//	         process; every failure seen in a serve child is re-established
+//	         this way before it is reported, so a verdict never depends on
+//	         what ran earlier in the worker.
+//
+// The child's stdout (where Lua's print and io.write go) is discarded.
 
 const childEnv = "C20SEQ_CHILD"
 
@@ -43,6 +58,7 @@ type childRes struct {
 	Sig    uint64      `json:"sig"`
 	Merges uint64      `json:"merges"`
 	Stmts  uint64      `json:"stmts"`
+	Retire bool        `json:"retire,omitempty"` // serve mode: the canary failed, the process exits
 }
 
 func init() {
@@ -50,39 +66,112 @@ func init() {
 	if v == "" {
 		return
 	}
-	var req childReq
-	if err := json.Unmarshal([]byte(v), &req); err != nil {
-		fmt.Fprintln(os.Stderr, "c20seq child: bad request:", err)
-		os.Exit(3)
-	}
-	res := childMain(req)
+	watchdog.Store(time.Now().Unix() + 300)
 	out := os.NewFile(3, "result")
-	b, _ := json.Marshal(res)
-	if _, err := out.Write(b); err != nil {
-		fmt.Fprintln(os.Stderr, "c20seq child: cannot write result:", err)
-		os.Exit(3)
+	dir := setupSentinel()
+	// never outlive the worker, never spin for ever
+	ppid := os.Getppid()
+	go func() {
+		for {
+			time.Sleep(2 * time.Second)
+			if os.Getppid() != ppid || time.Now().Unix() > watchdog.Load() {
+				os.RemoveAll(dir)
+				os.Exit(4)
+			}
+		}
+	}()
+	code := 0
+	if v == "serve" {
+		serve(out, dir)
+	} else {
+		var req childReq
+		if err := json.Unmarshal([]byte(v), &req); err != nil {
+			fmt.Fprintln(os.Stderr, "c20seq child: bad request:", err)
+			code = 3
+		} else {
+			res := runRequest(req, dir)
+			b, _ := json.Marshal(res)
+			if _, err := out.Write(append(b, '\n')); err != nil {
+				code = 3
+			}
+		}
 	}
 	out.Close()
-	os.Exit(0)
+	os.RemoveAll(dir)
+	os.Exit(code)
 }
+
+// watchdog is the unix time after which the child kills itself.
+var watchdog atomic.Int64
 
 func sentinelDir(pid int) string { return fmt.Sprintf("/tmp/c20-%d", pid) }
 
-func childMain(req childReq) childRes {
+func setupSentinel() string {
 	dir := sentinelDir(os.Getpid())
-	cwd := filepath.Join(dir, "cwd")
-	tmp := filepath.Join(dir, "tmp")
 	os.RemoveAll(dir)
-	for _, d := range []string{cwd, tmp} {
-		if err := os.MkdirAll(d, 0755); err != nil {
+	for _, d := range []string{"cwd", "tmp"} {
+		if err := os.MkdirAll(filepath.Join(dir, d), 0755); err != nil {
 			fmt.Fprintln(os.Stderr, "c20seq child:", err)
 			os.Exit(3)
 		}
 	}
-	defer os.RemoveAll(dir)
-	os.Chdir(cwd)
-	os.Setenv("TMPDIR", tmp)
+	os.Chdir(filepath.Join(dir, "cwd"))
+	os.Setenv("TMPDIR", filepath.Join(dir, "tmp"))
+	return dir
+}
 
+// cleanSentinel removes what the scripts of a case left in the directory.
+func cleanSentinel(dir string) {
+	for _, sub := range []string{dir, filepath.Join(dir, "tmp"), filepath.Join(dir, "cwd")} {
+		ents, _ := os.ReadDir(sub)
+		for _, e := range ents {
+			if sub == dir && (e.Name() == "cwd" || e.Name() == "tmp") {
+				continue
+			}
+			os.RemoveAll(filepath.Join(sub, e.Name()))
+		}
+	}
+}
+
+func observerActor(s Script) *actor {
+	return &actor{Role: 'o', Name: s.Name, Steps: stmtSteps(s, 0)}
+}
+
+func serve(out *os.File, dir string) {
+	// pristine observations of every observer, before anything else runs
+	pristine := make([]string, len(Observers))
+	for i, s := range Observers {
+		pristine[i], _ = runSolo(observerActor(s), dir)
+	}
+	cleanSentinel(dir)
+	in := bufio.NewReaderSize(os.Stdin, 1<<16)
+	for {
+		line, err := in.ReadBytes('\n')
+		if len(line) == 0 || err != nil {
+			return // parent gone
+		}
+		var req childReq
+		if json.Unmarshal(line, &req) != nil {
+			return
+		}
+		watchdog.Store(time.Now().Unix() + 300)
+		res := runRequest(req, dir)
+		cleanSentinel(dir)
+		for i, s := range Observers {
+			if now, _ := runSolo(observerActor(s), dir); now != pristine[i] {
+				res.Retire = true
+				break
+			}
+		}
+		cleanSentinel(dir)
+		b, _ := json.Marshal(res)
+		if _, err := out.Write(append(b, '\n')); err != nil || res.Retire {
+			return
+		}
+	}
+}
+
+func runRequest(req childReq, dir string) childRes {
 	cd, err := resolve(req.Fam, req.Idx)
 	if err != nil {
 		fmt.Fprintln(os.Stderr, "c20seq child:", err)
@@ -90,7 +179,7 @@ func childMain(req childReq) childRes {
 	}
 	var res childRes
 	o := cd.Actors[len(cd.Actors)-1]
-	// The very first thing this process runs is the observer alone.
+	// The first thing the case runs is the observer alone.
 	solo, n := runSolo(o, dir)
 	res.Solo = solo
 	res.Stmts += uint64(n)
@@ -120,11 +209,14 @@ func childMain(req childReq) childRes {
 		only[k] = true
 	}
 	var sig strings.Builder
-	for mi, m := range ms {
-		if len(only) > 0 && !only[mi] {
-			continue
+	var todo []int
+	for mi := range ms {
+		if len(only) == 0 || only[mi] {
+			todo = append(todo, mi)
 		}
-		obs, n := runSchedule(cd.Actors, m, dir)
+	}
+	for k, mi := range todo {
+		obs, n := runSchedule(cd.Actors, ms[mi], dir)
 		res.Merges++
 		res.Stmts += uint64(n)
 		for _, s := range obs {
@@ -137,14 +229,20 @@ func childMain(req childReq) childRes {
 				res.Fail = append(res.Fail, childFail{Merge: mi, Kind: "during", Got: got})
 			}
 		}
-		// recompute the solo observation: anything the merge left behind in
-		// the process shows here
-		post, n := runSolo(o, dir)
-		res.Stmts += uint64(n)
-		if post != solo && !failed {
-			failed = true
-			if len(res.Fail) < 8 {
-				res.Fail = append(res.Fail, childFail{Merge: mi, Kind: "after", Got: post})
+		// Recompute the solo observation in a new runtime: anything the
+		// schedule left behind in the process shows here.  Done after the
+		// first merge (the observer ran before the interferers there, so this
+		// is the first look at a process in which the interferers have run to
+		// completion), after the last one, and after every merge of a
+		// restricted (confirmation) run.
+		if k == 0 || k == len(todo)-1 || len(only) > 0 {
+			post, n := runSolo(o, dir)
+			res.Stmts += uint64(n)
+			if post != solo && !failed {
+				failed = true
+				if len(res.Fail) < 8 {
+					res.Fail = append(res.Fail, childFail{Merge: mi, Kind: "after", Got: post})
+				}
 			}
 		}
 		if failed {
@@ -155,14 +253,21 @@ func childMain(req childReq) childRes {
 	return res
 }
 
+// ---------------------------------------------------------------- parent side
+
 type childErr struct {
 	kind   string // crash | hang
 	detail string
 }
 
-type capBuf struct{ b bytes.Buffer }
+type capBuf struct {
+	mu sync.Mutex
+	b  bytes.Buffer
+}
 
 func (c *capBuf) Write(p []byte) (int, error) {
+	c.mu.Lock()
+	defer c.mu.Unlock()
 	if c.b.Len() < 8000 {
 		k := 8000 - c.b.Len()
 		if k > len(p) {
@@ -173,17 +278,32 @@ func (c *capBuf) Write(p []byte) (int, error) {
 	return len(p), nil
 }
 
-func spawnChild(req childReq) (*childRes, *childErr) {
+func (c *capBuf) take() string {
+	c.mu.Lock()
+	defer c.mu.Unlock()
+	s := c.b.String()
+	c.b.Reset()
+	return s
+}
+
+type child struct {
+	cmd    *exec.Cmd
+	stdin  io.WriteCloser
+	lines  chan []byte // one response per element; closed when the child's result pipe closes
+	stderr capBuf
+}
+
+func startChild(mode string) *child {
 	exe, err := os.Executable()
 	if err != nil {
 		panic(err)
 	}
-	rb, _ := json.Marshal(req)
 	pr, pw, err := os.Pipe()
 	if err != nil {
 		panic(err)
 	}
-	cmd := exec.Command(exe)
+	c := &child{lines: make(chan []byte, 1)}
+	c.cmd = exec.Command(exe)
 	var env []string
 	for _, e := range os.Environ() {
 		if strings.HasPrefix(e, "VERIF_PROGRESS=") || strings.HasPrefix(e, "GOMAXPROCS=") || strings.HasPrefix(e, childEnv+"=") {
@@ -191,40 +311,99 @@ func spawnChild(req childReq) (*childRes, *childErr) {
 		}
 		env = append(env, e)
 	}
-	cmd.Env = append(env, childEnv+"="+string(rb), "GOMAXPROCS=2", "GOTRACEBACK=single")
-	cmd.ExtraFiles = []*os.File{pw}
-	var stderr capBuf
-	cmd.Stderr = &stderr
-	if err := cmd.Start(); err != nil {
-		pr.Close()
-		pw.Close()
+	c.cmd.Env = append(env, childEnv+"="+mode, "GOMAXPROCS=1", "GOTRACEBACK=single")
+	c.cmd.ExtraFiles = []*os.File{pw}
+	c.cmd.Stderr = &c.stderr
+	if mode == "serve" {
+		c.stdin, err = c.cmd.StdinPipe()
+		if err != nil {
+			panic(err)
+		}
+	}
+	if err := c.cmd.Start(); err != nil {
 		panic(fmt.Sprintf("cannot start child: %v", err))
 	}
 	pw.Close()
-	pid := cmd.Process.Pid
-	defer os.RemoveAll(sentinelDir(pid))
-	var hung atomic.Bool
-	timer := time.AfterFunc(120*time.Second, func() {
-		hung.Store(true)
-		cmd.Process.Kill()
-	})
-	data, _ := io.ReadAll(pr)
-	pr.Close()
-	werr := cmd.Wait()
-	timer.Stop()
-	if hung.Load() {
-		return nil, &childErr{kind: "hang", detail: "no result after 120 s\nstderr:\n" + stderr.b.String()}
-	}
-	var res childRes
-	if werr != nil || json.Unmarshal(data, &res) != nil {
-		reason := "unknown"
-		for _, ln := range strings.Split(stderr.b.String(), "\n") {
-			if strings.HasPrefix(ln, "fatal error:") || strings.HasPrefix(ln, "panic:") {
-				reason = ln
-				break
+	go func() {
+		rd := bufio.NewReaderSize(pr, 1<<16)
+		for {
+			line, err := rd.ReadBytes('\n')
+			if len(line) > 0 && err == nil {
+				c.lines <- line
+			}
+			if err != nil {
+				close(c.lines)
+				pr.Close()
+				return
 			}
 		}
-		return nil, &childErr{kind: "crash", detail: fmt.Sprintf("exit: %v (%s)\nstderr:\n%s", werr, reason, stderr.b.String())}
+	}()
+	return c
+}
+
+// stop kills the child (if still there) and removes its sentinel directory.
+func (c *child) stop() {
+	if c.stdin != nil {
+		c.stdin.Close()
 	}
-	return &res, nil
+	c.cmd.Process.Kill()
+	c.cmd.Wait()
+	os.RemoveAll(sentinelDir(c.cmd.Process.Pid))
+}
+
+// await waits for the next response.
+func (c *child) await() (*childRes, *childErr) {
+	select {
+	case line, ok := <-c.lines:
+		var res childRes
+		if !ok || json.Unmarshal(line, &res) != nil {
+			werr := c.cmd.Wait()
+			se := c.stderr.take()
+			reason := "unknown"
+			for _, ln := range strings.Split(se, "\n") {
+				if strings.HasPrefix(ln, "fatal error:") || strings.HasPrefix(ln, "panic:") {
+					reason = ln
+					break
+				}
+			}
+			return nil, &childErr{kind: "crash", detail: fmt.Sprintf("exit: %v (%s)\nstderr:\n%s", werr, reason, se)}
+		}
+		c.stderr.take()
+		return &res, nil
+	case <-time.After(150 * time.Second):
+		return nil, &childErr{kind: "hang", detail: "no result after 150 s\nstderr:\n" + c.stderr.take()}
+	}
+}
+
+// runPristine runs one request in a one-shot child.
+func runPristine(req childReq) (*childRes, *childErr) {
+	rb, _ := json.Marshal(req)
+	c := startChild(string(rb))
+	defer c.stop()
+	return c.await()
+}
+
+var server *child // the worker's long-lived child (Family.Run is sequential within a process)
+
+// runServed runs one request in the long-lived child, starting or replacing
+// it as needed.
+func runServed(req childReq) (*childRes, *childErr) {
+	if server == nil {
+		server = startChild("serve")
+	}
+	rb, _ := json.Marshal(req)
+	if _, err := server.stdin.Write(append(rb, '\n')); err != nil {
+		// it died between two cases (cannot be blamed on this one): once more
+		server.stop()
+		server = startChild("serve")
+		if _, err := server.stdin.Write(append(rb, '\n')); err != nil {
+			panic(fmt.Sprintf("cannot talk to child: %v", err))
+		}
+	}
+	res, cerr := server.await()
+	if cerr != nil || res.Retire {
+		server.stop()
+		server = nil
+	}
+	return res, cerr
 }
